@@ -7,6 +7,7 @@ set_option linter.unusedVariables false
 def ClockSkewTolerance : Go.Duration := ((2 : Int) * Go.Minute)
 def ClockSkewToleranceFuture : Go.Duration := ((2 : Int) * Go.Minute)
 def ClockSkewTolerancePast : Go.Duration := ((10 : Int) * Go.Second)
+def defaultBlacklistDuration : Go.Duration := ((24 : Int) * Go.Hour)
 
 /-- verifyIssuer (jwt.go) -/
 def verifyIssuer (tokenIssuer : Go.Str) (expectedIssuer : Go.Str) : Go.Err :=
@@ -425,5 +426,106 @@ def TraefikOidc_isUserAuthenticated (now : Go.Time) (t : Go.Inst) (session : Go.
                 (true, false, false)
             else
               (true, false, false)
+
+/-- TraefikOidc.performPreVerificationChecks (main.go) -/
+def TraefikOidc_performPreVerificationChecks {σ : Type} (ops : Go.VOps σ) (now : Go.Time) (t : Go.Inst) (token : Go.Str) (w : σ) : Go.Err × σ :=
+  let (r_1, w) := (ops.limiterAllow w now)
+  if (!r_1) then
+    ((some (['r','a','t','e',' ','l','i','m','i','t',' ','e','x','c','e','e','d','e','d'])), w)
+  else
+    let ((_u2, exists_), w) := (ops.blacklistGet w now token)
+    if exists_ then
+      ((some (['t','o','k','e','n',' ','i','s',' ','b','l','a','c','k','l','i','s','t','e','d',' ','(','r','a','w',' ','s','t','r','i','n','g',')',' ','i','n',' ','c','a','c','h','e'])), w)
+    else
+      let (claims, err) := (t.extractClaims token)
+      if err.isNone then
+        let (jti, ok) := Go.asStr (Go.mapGet claims ['j','t','i'])
+        if (ok && (jti != ([] : Go.Str))) then
+          let ((_u3, exists_), w) := (ops.blacklistGet w now jti)
+          if exists_ then
+            ((some (['t','o','k','e','n',' ','r','e','p','l','a','y',' ','d','e','t','e','c','t','e','d',' ','(','j','t','i',':',' '] ++ jti ++ [')',' ','i','n',' ','c','a','c','h','e'])), w)
+          else
+            ((none : Go.Err), w)
+        else
+          ((none : Go.Err), w)
+      else
+        ((none : Go.Err), w)
+
+/-- TraefikOidc.cacheVerifiedToken (main.go) -/
+def TraefikOidc_cacheVerifiedToken {σ : Type} (ops : Go.VOps σ) (now : Go.Time) (t : Go.Inst) (token : Go.Str) (claims : Go.Obj) (w : σ) : σ :=
+  let expirationTime := (Go.timeUnix (Go.int64 (Go.assertF64 (Go.mapGet claims ['e','x','p']))) (0 : Int))
+  let now_1 := now
+  let duration := (Go.timeSub expirationTime now_1)
+  let w := (ops.tokenCacheSet w now token claims duration)
+  w
+
+/-- TraefikOidc.VerifyToken (main.go) -/
+def TraefikOidc_VerifyToken {σ : Type} (ops : Go.VOps σ) (now : Go.Time) (t : Go.Inst) (token : Go.Str) (w : σ) : Go.Err × σ :=
+  let ((claims, exists_), w) := (ops.tokenCacheGet w now token)
+  if (exists_ && (decide ((claims.length : Int) > (0 : Int)))) then
+    ((none : Go.Err), w)
+  else
+    let (r_1, w) := (TraefikOidc_performPreVerificationChecks ops now t token w)
+    let err := r_1
+    if err.isSome then
+      (err, w)
+    else
+      let (jwt, err) := (t.parseJWT token)
+      if err.isSome then
+        ((some (['f','a','i','l','e','d',' ','t','o',' ','p','a','r','s','e',' ','J','W','T',':',' '] ++ (Go.errText err))), w)
+      else
+        let err_2 := (TraefikOidc_VerifyJWTSignatureAndClaims now t jwt token)
+        if err_2.isSome then
+          (err_2, w)
+        else
+          let w := (TraefikOidc_cacheVerifiedToken ops now t token jwt.Claims w)
+          let (jti, ok) := Go.asStr (Go.mapGet jwt.Claims ['j','t','i'])
+          if (ok && (jti != ([] : Go.Str))) then
+            let expiry := (Go.timeAdd now defaultBlacklistDuration)
+            let (expClaim, expOk) := Go.asF64 (Go.mapGet jwt.Claims ['e','x','p'])
+            if expOk then
+              let expTime := (Go.timeUnix (Go.int64 expClaim) (0 : Int))
+              let tokenDuration := (Go.timeSub expTime now)
+              if ((decide (tokenDuration > defaultBlacklistDuration)) && (decide (tokenDuration < (((24 : Int) * Go.Hour))))) then
+                let expiry := expTime
+                let w := (ops.blacklistSet w now jti (Go.Any.bool true) (Go.timeSub expiry now))
+                ((none : Go.Err), w)
+              else
+                if (decide (tokenDuration ≤ (0 : Int))) then
+                  let expiry := (Go.timeAdd now defaultBlacklistDuration)
+                  let w := (ops.blacklistSet w now jti (Go.Any.bool true) (Go.timeSub expiry now))
+                  ((none : Go.Err), w)
+                else
+                  let expiry := (Go.timeAdd now defaultBlacklistDuration)
+                  let w := (ops.blacklistSet w now jti (Go.Any.bool true) (Go.timeSub expiry now))
+                  ((none : Go.Err), w)
+            else
+              let w := (ops.blacklistSet w now jti (Go.Any.bool true) (Go.timeSub expiry now))
+              ((none : Go.Err), w)
+          else
+            ((none : Go.Err), w)
+
+/-- TraefikOidc.RevokeToken (main.go) -/
+def TraefikOidc_RevokeToken {σ : Type} (ops : Go.VOps σ) (now : Go.Time) (t : Go.Inst) (token : Go.Str) (w : σ) : σ :=
+  let w := (ops.tokenCacheDelete w token)
+  let expiry := (Go.timeAdd now ((24 : Int) * Go.Hour))
+  let (claims, err) := (t.extractClaims token)
+  if err.isNone then
+    let (expClaim, ok) := Go.asF64 (Go.mapGet claims ['e','x','p'])
+    if ok then
+      let tokenEnd := (Go.timeAdd (Go.timeUnix (Go.int64 expClaim) (0 : Int)) ClockSkewToleranceFuture)
+      if (Go.timeAfter tokenEnd expiry) then
+        let expiry := tokenEnd
+        let w := (ops.blacklistSet w now token (Go.Any.bool true) (Go.timeSub expiry now))
+        w
+      else
+        let w := (ops.blacklistSet w now token (Go.Any.bool true) (Go.timeSub expiry now))
+        w
+    else
+      let w := (ops.blacklistSet w now token (Go.Any.bool true) (Go.timeSub expiry now))
+      w
+  else
+    let w := (ops.blacklistSet w now token (Go.Any.bool true) (Go.timeSub expiry now))
+    w
 
 end Oidc.Generated.Code
